@@ -723,16 +723,28 @@ fn gen_op(n_slots: usize, n_digests: usize, invalid_bias: u32) -> Op {
 }
 
 fn make_digests(n: usize) -> Vec<MethodDigest> {
+  // Digests of methods that differ only in the fragment, or only in the key: they must stay distinct entries.
   let did = CoreDID::parse("did:sim:ks").unwrap();
-  (0..n)
-    .map(|i| {
+  let combos: [(&str, u8); 3] = [("a", 1), ("a", 2), ("b", 1)];
+  let v: Vec<MethodDigest> = combos
+    .iter()
+    .take(n)
+    .map(|(frag, key)| {
       let mut seed = [0u8; 32];
-      seed[0] = i as u8 + 1;
+      seed[0] = *key;
       let jwk = jwk_from_json(serde_json::json!({"kty":"OKP","crv":"Ed25519","x": ed25519_public_x(&seed), "alg":"EdDSA"}));
-      let m = VerificationMethod::new_from_jwk(did.clone(), jwk, Some(&format!("d{i}"))).expect("method builds");
+      let m = VerificationMethod::new_from_jwk(did.clone(), jwk, Some(frag)).expect("method builds");
       MethodDigest::new(&m).expect("digest builds")
     })
-    .collect()
+    .collect();
+  // pack / unpack is how a digest travels to persistent stores: it must be the identity
+  for d in &v {
+    match MethodDigest::unpack(d.pack()) {
+      Ok(back) if &back == d => {}
+      _ => ctx::violation("C15", "C15.one_key_id_per_digest", "digest/pack-unpack-not-identity", "MethodDigest::unpack(pack(d)) != d"),
+    }
+  }
+  v
 }
 
 impl Engine for KsEngine {
